@@ -86,15 +86,17 @@ class XslGen:
                 parts.append({"lit": False, "e": self.expr(scope, self.r.choice(["str", "num", "ns", "bool"]), d=self.r.choice([0, 1]))})
         return parts
 
-    def body(self, scope, d, allow_attr=True, in_elem=False):
+    def body(self, scope, d, allow_attr=True, in_elem=False, text_only=False):
+        """text_only: the body of xsl:attribute / xsl:comment / xsl:processing-instruction must create text nodes only
+        (anything else is an error in XSLT 1.0 7.1.3 / 7.3 / 7.4), so no template is called from it"""
         scope = dict(scope)
         out = []
         if in_elem and allow_attr:
             while self.r.random() < 0.35 and len(out) < 2:
                 out.append({"i": "attribute", "name": [{"lit": True, "s": cps(self.r.choice(["p", "q", "x"]))}],
-                            "body": self.body(scope, 0, allow_attr=False) if self.r.random() < 0.6 else [{"i": "value-of", "sel": self.expr(scope, "any", d=1)}]})
+                            "body": self.body(scope, 0, allow_attr=False, text_only=True) if self.r.random() < 0.6 else [{"i": "value-of", "sel": self.expr(scope, "any", d=1)}]})
         n = self.r.choice([1, 1, 2, 2, 3]) if d > 0 else self.r.choice([0, 1, 1])
-        if self.named and not out and self.r.random() < 0.12:
+        if self.named and not out and not text_only and self.r.random() < 0.12:
             # a call-template as the only child of its parent (Xalan runs such a callee "directly")
             return [self.call_template(scope, allow_params=self.r.random() < 0.4)]
         for _ in range(n):
